@@ -270,6 +270,11 @@ impl Components {
             ),
             // TODO: datagram
         ));
+        #[cfg(genmeta_gm_quic_verif)]
+        let one_rtt_packages = Packages((
+            crate::verif::InjectSource(self.role()),
+            one_rtt_packages,
+        ));
         DataSources {
             initial: Box::new(initial_packages),
             zero_rtt: Box::new(zero_rtt_packages),
